@@ -6,6 +6,8 @@ use serde_json::{json, Value};
 pub struct Pkg {
     pub name: String,
     pub workspace: bool,
+    /// non-workspace *path* dependency (lives outside the workspace root, may depend on members)
+    pub path_dep: bool,
     /// (target index, kind: 0 normal, 1 dev, 2 build)
     pub deps: Vec<(usize, u8)>,
     /// extra build targets: (kind, name) with kind in test|bin|example|bench
@@ -34,11 +36,12 @@ impl GraphSpec {
         for i in 0..n {
             let name = if ws_flags[i] { wsi += 1; format!("w{}", wsi - 1) } else { exi += 1; format!("x{}", exi - 1) };
             let mut deps = Vec::new();
+            let path_dep = !ws_flags[i] && rng.chance(1, 2);
             for j in (i + 1)..n {
                 if rng.chance(1, 3) {
-                    // external packages cannot depend on workspace packages in practice, but guppy
-                    // does not care; keep it realistic anyway: ext -> ws edges are dropped.
-                    if !ws_flags[i] && ws_flags[j] { continue; }
+                    // registry packages cannot depend on workspace members; non-workspace path
+                    // dependencies can (a -> ext -> b with a, b members).
+                    if !ws_flags[i] && ws_flags[j] && !path_dep { continue; }
                     let kind = if ws_flags[i] { [0u8, 0, 0, 1, 2][rng.below(5) as usize] } else { 0 };
                     deps.push((j, kind));
                 }
@@ -50,7 +53,7 @@ impl GraphSpec {
                 if rng.chance(1, 5) { targets.push(("example".to_string(), "ex".to_string())); }
                 if rng.chance(1, 5) { targets.push(("bench".to_string(), "bn".to_string())); }
             }
-            pkgs.push(Pkg { name, workspace: ws_flags[i], deps, targets });
+            pkgs.push(Pkg { name, workspace: ws_flags[i], path_dep, deps, targets });
         }
         GraphSpec { pkgs }
     }
@@ -59,6 +62,8 @@ impl GraphSpec {
         let p = &self.pkgs[i];
         if p.workspace {
             format!("path+file:///ws/{}#0.1.0", p.name)
+        } else if p.path_dep {
+            format!("path+file:///outside/{}#1.0.0", p.name)
         } else {
             format!("registry+https://github.com/rust-lang/crates.io-index#{}@1.0.0", p.name)
         }
@@ -71,8 +76,8 @@ impl GraphSpec {
         for (i, p) in self.pkgs.iter().enumerate() {
             let id = self.id(i);
             if p.workspace { members.push(Value::String(id.clone())); }
-            let dir = if p.workspace { format!("/ws/{}", p.name) } else { format!("/reg/{}-1.0.0", p.name) };
-            let source = if p.workspace { Value::Null } else { json!("registry+https://github.com/rust-lang/crates.io-index") };
+            let dir = if p.workspace { format!("/ws/{}", p.name) } else if p.path_dep { format!("/outside/{}", p.name) } else { format!("/reg/{}-1.0.0", p.name) };
+            let source = if p.workspace || p.path_dep { Value::Null } else { json!("registry+https://github.com/rust-lang/crates.io-index") };
             let mut dependencies = Vec::new();
             let mut deps = Vec::new();
             let mut dep_ids = Vec::new();
@@ -80,11 +85,12 @@ impl GraphSpec {
                 let q = &self.pkgs[j];
                 let kind_v = match kind { 0 => Value::Null, 1 => json!("dev"), _ => json!("build") };
                 let mut d = json!({
-                    "name": q.name, "source": if q.workspace { Value::Null } else { json!("registry+https://github.com/rust-lang/crates.io-index") },
-                    "req": if q.workspace { "*" } else { "^1.0.0" }, "kind": kind_v, "rename": null, "optional": false,
+                    "name": q.name, "source": if q.workspace || q.path_dep { Value::Null } else { json!("registry+https://github.com/rust-lang/crates.io-index") },
+                    "req": if q.workspace || q.path_dep { "*" } else { "^1.0.0" }, "kind": kind_v, "rename": null, "optional": false,
                     "uses_default_features": true, "features": [], "target": null, "registry": null
                 });
                 if q.workspace { d["path"] = json!(format!("/ws/{}", q.name)); }
+                else if q.path_dep { d["path"] = json!(format!("/outside/{}", q.name)); }
                 dependencies.push(d);
                 deps.push(json!({"name": q.name.replace('-', "_"), "pkg": self.id(j), "dep_kinds": [{"kind": kind_v, "target": null}]}));
                 dep_ids.push(Value::String(self.id(j)));
